@@ -109,17 +109,20 @@ PROPS["C04"] = dict(
 # ---------------------------------------------------------------- C19
 PROPS["C19"] = dict(
     level="model_checking",
-    technique="deviation-bounded exhaustive enumeration of callback programs (all programs up to length L over 17 token-mutating calls) on the real checker, differential oracle",
+    technique="deviation-bounded exhaustive enumeration of callback programs (all programs up to length L over 17 token-mutating calls, plus configuration edits in vetoing programs) on the real checker, differential oracle",
     level_text=("every callback program of length <= 2 (quick) / <= 4 (thorough) over 17 header/claim set/replace/delete/merge/get "
                 "calls is installed on the real checker for every claim-check configuration (8) x keyed/key-less x 9 payloads x 3 "
-                "signature kinds; the verdict must equal that of the same checker without a callback; non-zero returns must "
-                "always reject"),
+                "signature kinds; the verdict must equal that of the same checker without a callback; vetoing programs (return 1, -1, "
+                "2, 256, INT_MIN) of length <= 2 (thorough <= 3) over 20 operations -- the 17 plus three edits of config->key/alg, "
+                "admissible ones included -- must always reject; accepting programs that first select the key the baseline has are "
+                "compared with the keyed baseline"),
     level_note="differential oracle with no expected values: program vs no callback on identically configured fresh checkers",
     rule=("states = callback programs; transitions = (program, configuration, token) cells each executing two real verifications; "
           "a case is non-trivial when the callback actually ran (token parsed); distinct by descriptor"),
     runs=lambda tier: [dict(harness="claims", args=["--param", 0])] + ([dict(harness="claims", args=["--param", 1])] if tier == "thorough" else []),
-    bound=dict(quick="all programs of length <= 2 (307)", thorough="all programs of length <= 4 (88 741), both providers"),
-    assumptions=["callbacks that change config->key/alg are C02's routes; here the config is left untouched"],
+    bound=dict(quick="all accepting programs of length <= 2 (307), all vetoing programs of length <= 2 over 20 operations (421)",
+               thorough="all accepting programs of length <= 4 (88 741), all vetoing programs of length <= 3 (8 421), both providers"),
+    assumptions=["accepting callbacks that change config->key/alg to something other than the baseline's key are C01/C02's routes"],
     budget_s=dict(quick=600, thorough=2400),
 )
 
@@ -131,7 +134,8 @@ PROPS["C15"] = dict(
                 "names a/b/empty/NULL, malformed and non-container JSON) up to depth 3 (quick) / 4 (thorough) on builder headers, "
                 "builder claims and the jwt_t handed to builder and checker callbacks; each history is replayed on a fresh real "
                 "object and every call's return code, value.error, returned value and the resulting whole-object dump are compared "
-                "with ref_map; states are merged on the canonical dump, which is all the API can read or write"),
+                "with ref_map; every second case leaves a stale error code in the jwt_value_t before the call (a caller reusing "
+                "one value); states are merged on the canonical dump, which is all the API can read or write"),
     level_note="ref_map = model_apply() in harness/seq.c (90 lines on jansson containers); merging on the dump is future-equivalent because the map is the only state these calls touch",
     rule=("states = distinct canonical maps reached per receiver; transitions = state x operation (all executed on the real object by "
           "replaying the state's shortest history); evaluations = individual API calls compared with the model; non-trivial = the "
@@ -394,7 +398,9 @@ PROPS["C20"] = dict(
                 "1-6 (thorough 1-8) tokens and with 255/256/257/512 (thorough also 254, 258, 511, 513, 1024) tokens in six shapes, "
                 "as arguments and on standard input; a jwt-generate -> jwt-verify round trip for seven key files (with and without "
                 "alg attribute, oct/EC/RSA/OKP, PS256) under every combination of short and long spellings (and =value forms) of "
-                "every documented option; key2jwk -> jwk2key for every key of the pool in private and public form (leading-zero EC "
+                "every documented option; every documented claim type through -c/--claim/--claim= and -j over a value ladder (18 "
+                "integers up to +-2^63 incl. hex/octal forms, also as a future exp and a past nbf; 9 boolean spellings; 7 strings): "
+                "the payload must carry strtol()'s value and jwt-verify must accept; key2jwk -> jwk2key for every key of the pool in private and public form (leading-zero EC "
                 "keys included) and oct files of 32-512 bytes, comparing the JWK member by member with the harness's own JWK of "
                 "the same PEM (RFC 7518 fixed-width EC members) and the PEM written back with the original"),
     level_note="exit status 0 <=> every token verified is judged against tokens whose validity is known by construction and confirmed one by one",
